@@ -31,6 +31,9 @@ for _f in sorted(glob.glob(os.path.join(os.path.dirname(os.path.abspath(__file__
 
 
 def classify(engine, kind):
+    fn = ENGINES[engine].get("classify")
+    if fn:
+        return fn(kind)
     k = ENGINES[engine]["kinds"].get(kind)
     if k is None:
         return dict(**{"class": "corr"}, props=[p for p, s in PROPS.items() if engine in s["engines"]], what="unclassified kind %d" % kind)
@@ -40,6 +43,11 @@ def classify(engine, kind):
 
 
 def extract_case(engine, cases_json, idx):
+    div = ENGINES[engine].get("index_div")
+    if div:
+        c = dict(cases_json["cases"][idx // div])
+        c["failing_step"] = idx % div
+        return c
     secs = ENGINES[engine].get("sections")
     if not secs:
         return cases_json[idx] if isinstance(cases_json, list) else cases_json["cases"][idx]
@@ -55,6 +63,10 @@ def wrap_case(engine, case):
     """a cases JSON containing only that case (what `harness <engine> -replay` reads)"""
     if case is None or "error" in case:
         return None
+    if ENGINES[engine].get("index_div"):
+        c = dict(case)
+        c.pop("failing_step", None)
+        return {"cases": [c]}
     secs = ENGINES[engine].get("sections")
     if not secs:
         return {"cases": [case]}
